@@ -1190,7 +1190,12 @@ class Sampler():
         if len(self.bounds) == 0:
             return 1.0
         else:
-            log_l = np.concatenate(self.log_l)
+            if self._discard_exploration and self.explored:
+                start = self.shell_end_exp
+            else:
+                start = np.zeros(len(self.log_l), dtype=int)
+            log_l = np.concatenate(
+                [ll[s:] for ll, s in zip(self.log_l, start)])
             log_v = np.repeat(
                 self.shell_log_v - np.log(np.maximum(self.shell_n, 1)),
                 self.shell_n)
